@@ -585,7 +585,13 @@ func (e *Extractor) extractSuffixes(re *syntax.Regexp, depth int) *Seq {
 	case syntax.OpLiteral:
 		// Case-insensitive literal: expand case-folding variants
 		if re.Flags&syntax.FoldCase != 0 {
-			return e.expandCaseFoldLiteral(re.Rune)
+			seq := e.expandCaseFoldLiteral(re.Rune)
+			if !seq.AllComplete() {
+				// The expansion was trimmed to variants of a PREFIX of the literal;
+				// those are not suffixes of the match.
+				return NewSeq()
+			}
+			return seq
 		}
 		// Direct literal
 		bytes := runeSliceToBytes(re.Rune)
@@ -690,8 +696,10 @@ func (e *Extractor) extractSuffixes(re *syntax.Regexp, depth int) *Seq {
 			}
 			for i := 0; i < seq.Len(); i++ {
 				allLits = append(allLits, seq.Get(i))
-				if len(allLits) >= e.config.MaxLiterals {
-					return NewSeq(allLits...)
+				if len(allLits) > e.config.MaxLiterals {
+					// Dropping alternatives would make the set unsound (a match could end
+					// with a literal that was cut off): give up instead.
+					return NewSeq()
 				}
 			}
 		}
